@@ -17,7 +17,7 @@ from asphalt.core import (  # noqa: E402
 )
 
 STEPS = ["enter Context()", "enter Context() with a raising teardown callback", "enter Context(explicit parent = the shared root)",
-         "leave cleanly", "leave with an exception", "checkpoint", "spawn a child task"]
+         "leave cleanly", "leave with an exception", "checkpoint", "spawn a child task", "try to enter the innermost context again (must be refused)"]
 
 
 def cur():
@@ -83,6 +83,17 @@ class Prog:
                     if self.entered:
                         if not await self.leave(BodyErr("body") if st == 4 else None):
                             return
+                elif st == 7:
+                    if self.entered:
+                        top = self.entered[-1][0]
+                        try:
+                            await top.__aenter__()
+                            self.problems.append(("re-entry-of-an-entered-context-accepted", self.name))
+                            return
+                        except RuntimeError:
+                            pass
+                        if not self.observe("after-refused-re-entry"):
+                            return
                 elif st == 5:
                     await anyio.sleep(0)
                     if not self.observe("after-checkpoint"):
@@ -108,7 +119,7 @@ def cfg(tier):
 
 def params(tier):
     K, D, L = cfg(tier)
-    ps = [P(f"a{i}", 0, 6) for i in range(K)] + [P("cancel", 0, 4)]
+    ps = [P(f"a{i}", 0, 7) for i in range(K)] + [P("cancel", 0, 4)]
     for j in range(D):
         ps += [P(f"gap{j}", 0, L), P(f"arm{j}", 0, 7)]
     return ps
@@ -117,7 +128,7 @@ def params(tier):
 @guard
 def fn(a, tier):
     K, D, L = cfg(tier)
-    steps = [pick(a[f"a{i}"], 7) for i in range(K)]
+    steps = [pick(a[f"a{i}"], 8) for i in range(K)]
     cancel_at = pick(a["cancel"], 5)  # 0: never; n: the canceller cancels task A after n-1 checkpoints
     tape = DeviationTape([(a[f"gap{j}"], a[f"arm{j}"]) for j in range(D)], L)
     problems = []
